@@ -87,4 +87,18 @@ theorem ref_filter_filter (ρ : Env) (f g h : PredSym)
   | ok r => simp only [bind, Except.bind, filter_filter_eq, this]
 
 
+/-! ### `items()` followed by dropping the keys -/
+
+/-- `lambda kv: kv[1]` on the pairs `items()` yields -/
+def sndOfPair : Val → Res Val
+  | .tup [_, v] => .ok v
+  | _ => .error .typeError
+
+theorem mapMAux_snd_pairVal (e : Option Err) : ∀ (l : List (String × Val)),
+    Stream.mapMAux sndOfPair (l.map pairVal) e = ⟨l.map (·.2), e⟩
+  | [] => by simp [Stream.mapMAux]
+  | kv :: l => by
+    simp [Stream.mapMAux, pairVal, sndOfPair, mapMAux_snd_pairVal e l]
+
+
 end LazyDs
